@@ -37,7 +37,7 @@ def gen_cases(tier, seed):
     for i in range(2000 if q else 20000):
         yield "witness_stack", {"salt": rng.getrandbits(40), "n": rng.choice([0, 0, 1, 2, 3, 5, 20]), "big": i % 40 == 0}
     for i in range(60 if q else 900):
-        yield "cli", {"salt": rng.getrandbits(40), "witness": i % 2 == 0, "n": rng.randrange(0, 8)}
+        yield "cli", {"salt": rng.getrandbits(40), "witness": i % 2 == 0, "n": rng.randrange(0, 8), "lead0": (i // 2) % 3, "ofmt": ["hex", "bin", "raw"][(i // 6) % 3]}
     for n in range(1, 17):
         for m in range(1, n + 1):
             yield "multisig", {"m": m, "n": n, "salt": rng.getrandbits(32)}
@@ -53,7 +53,7 @@ def gen_cases(tier, seed):
 def required(tier):
     return {"push.decided": 600, "push.class.pushdata1": 150, "push.class.pushdata2": 300, "push.class.pushdata4": 3,
             "rs.decided": 500, "ops.covered": 100, "wit.decided": 250, "wit.class.item>=253": 40, "wit.class.empty_stack": 40,
-            "tmpl.multisig": 136, "tmpl.redeem": 600, "tmpl.null_data": 81, "tmpl.simple": 300, "cli.scripts": 45, "cli.class.empty_witness_item": 5,
+            "tmpl.multisig": 136, "tmpl.redeem": 600, "tmpl.null_data": 81, "tmpl.simple": 300, "cli.scripts": 45, "cli.class.empty_witness_item": 5, "cli.class.leading_op0": 8,
             "contract:script.minimal_push": 1000}
 
 
@@ -208,14 +208,21 @@ def run_case(kind, params, ctx):
             argv = ["script", "--witness"] + items
         else:
             items = [rand_bytes(rng, rng.choice([1, 20, 33, 75, 76, 255, 256])).hex() if rng.random() < 0.5 else rng.choice(NAMES) for _ in range(max(1, params["n"]))]
+            if params.get("lead0"):
+                # scripts that START with OP_0 (every segwit scriptPubKey, every multisig scriptSig): the output's leading 00 byte(s) are data
+                items = ["OP_0"] * params["lead0"] + items
+                ctx.count("cli.class.leading_op0")
             exp = rscript.assemble(items)
             argv = ["script"] + items
         ctx.count("cli.scripts")
         ctx.nontrivial()
         if any(a == "" for a in argv[1:]):
             ctx.count("cli.class.empty_witness_item")
-        r = clihelp.run(argv, b"")
-        got = clihelp.parse_out(r["out"], "hex")
+        ofmt = params.get("ofmt", "hex")
+        r = clihelp.run(argv + [clihelp.out_flag(ofmt)], b"")
+        got = clihelp.parse_out(r["out"], ofmt)
+        if ofmt != "raw" and got is not None and len(r["out"].strip()) != len(exp) * (2 if ofmt == "hex" else 8):
+            got = None          # the printed text must have exactly 2 (8) digits per byte
         cls = ("witness" + ("+empty-item" if "" in items else "")) if params["witness"] else "script"
         if not r["ok"] or got != exp:
             ctx.violation(f"cli/assemble-wrong/{cls}", f"bits {' '.join(a or repr(a) for a in argv)[:160]} printed {r['out'][:60]!r} (ret {r['ret']!r}), reference {exp.hex()[:60]}")
